@@ -1,7 +1,7 @@
 (* props/C08.v -- PROPERTY C08: results do not depend on representation choices of the same physical graph (edge order, id relabelling, 2 pi, edge splitting, information scaling, quaternion sign -- the last one REFUTED in general and proved for block-diagonal information; see known_findings.json)
    Only the statement, closed by [exact]; proofs are in proofs/C08_*.v. *)
 From Coq Require Import Reals List Arith Bool Lia Lra Permutation ZArith.
-From GS Require Import ExprR LinAlg Meth Wrap Chi2 GraphModel GNSpec GenSE2 C10_SE2 C01_SE3 C02_zero C03_sums C03_index C03_assembly C06_main C08_graph C08_pose C08_all.
+From GS Require Import ExprR LinAlg Meth Wrap Chi2 GraphModel GNSpec GenSE2 C10_SE2 C01_SE3 C02_zero C03_sums C03_index C03_assembly C06_main C08_graph C08_pose C08_vperm C08_all.
 Import ListNotations.
 Open Scope R_scope.
 
@@ -9,6 +9,20 @@ Theorem C08 :
   (* ---- order of the edge list ---- *)
   (forall vs es es', Permutation es es' ->
      (forall r, spec_b vs es r = spec_b vs es' r) /\ (forall r c, spec_H vs es r c = spec_H vs es' r c) /\ spec_chi2 es = spec_chi2 es') /\
+  (* ---- order of the VERTEX list: vertex k moves to position sg[k]; the flat system is the same system renumbered by phi,
+          chi2 is the same number, solutions correspond; and (distinct ids) the binding of edges follows the permutation ---- *)
+  (forall vs vs' sg es, Permutation sg (seq 0 (length vs)) -> length vs' = length vs ->
+     (forall k, (k < length vs)%nat -> nth (nth k sg 0%nat) vs' (mkvertex 0 false) = nth k vs (mkvertex 0 false)) -> wf_graph vs es ->
+     (forall r, (r < glen vs)%nat -> spec_b vs' (map (perm_edge sg) es) (phi vs vs' sg r) = spec_b vs es r) /\
+     (forall r c, (r < glen vs)%nat -> (c < glen vs)%nat ->
+        spec_H vs' (map (perm_edge sg) es) (phi vs vs' sg r) (phi vs vs' sg c) = spec_H vs es r c) /\
+     spec_chi2 (map (perm_edge sg) es) = spec_chi2 es /\
+     (forall dx dx', (forall c, (c < glen vs)%nat -> dx' (phi vs vs' sg c) = dx c) ->
+        solves (glen vs) (spec_H vs es) (spec_b vs es) dx ->
+        solves (glen vs') (spec_H vs' (map (perm_edge sg) es)) (spec_b vs' (map (perm_edge sg) es)) dx')) /\
+  (forall ids ids' sg vids, NoDup ids -> Permutation sg (seq 0 (length ids)) -> length ids' = length ids ->
+     (forall k, (k < length ids)%nat -> nth (nth k sg 0%nat) ids' 0%Z = nth k ids 0%Z) ->
+     bind_slots ids' vids = option_map (map (fun k => nth k sg 0%nat)) (bind_slots ids vids)) /\
   (* ---- injective relabelling of the vertex ids (negative, sparse, huge ids): same binding ---- *)
   (forall f : Z -> Z, (forall a b, f a = f b -> a = b) -> forall ids vids, bind_slots (map f ids) (map f vids) = bind_slots ids vids) /\
   (* ---- adding multiples of 2 pi to an SE(2) angle: the constructor stores the same pose ---- *)
